@@ -204,4 +204,30 @@ theorem valQ_mono {n : Nat} {u c : Nat → Rat} (N : Num n u c) {ρ1 ρ2 : Rat} 
             have := interp_mono (Rat.le_of_lt hu0) m
             grind
 
+/-- `BucketQuantile` is a number — not NaN — as soon as the rank is positive or the lowest bucket is non-empty
+    (the only NaN of the interpolation is 0/0 at rank 0 in an empty lowest bucket, F-C32-2). -/
+theorem valQ_fin_of {n : Nat} {u c : Nat → Rat} (N : Num n u c) {ρ : Rat} {k : Nat}
+    (S : Sel n c ρ k) (hpos : 0 < ρ ∨ 0 < c 0) : ∃ v, valQ n u c ρ k = .fin v := by
+  obtain ⟨hk, hlo, hhi⟩ := S
+  unfold valQ
+  by_cases h1 : k = n - 1
+  · rw [if_pos h1]; exact ⟨_, rfl⟩
+  · have hkn : k + 1 < n := by have := N.n2; omega
+    by_cases h2 : k = 0 ∧ u 0 ≤ 0
+    · rw [if_neg h1, if_pos h2]; exact ⟨_, rfl⟩
+    · have hρk : ρ ≤ c k := by grind
+      by_cases hk0 : k > 0
+      · have hprev : c (k - 1) < ρ := by grind
+        have hne : c k - c (k - 1) ≠ 0 := by grind
+        rw [if_neg h1, if_neg h2]
+        simp only [hk0, ↓reduceIte, XR.div_fin _ _ hne, XR.mul_fin, XR.add_fin]
+        exact ⟨_, rfl⟩
+      · have hk0' : k = 0 := by omega
+        subst hk0'
+        have hnu : ¬ u 0 ≤ 0 := by grind
+        have hc0 : c 0 ≠ 0 := by grind
+        rw [if_neg h1, if_neg h2]
+        simp only [gt_iff_lt, Nat.lt_irrefl, ↓reduceIte, XR.div_fin _ _ hc0, XR.mul_fin, XR.add_fin]
+        exact ⟨_, rfl⟩
+
 end Prom.Quantile
